@@ -230,3 +230,39 @@ pub fn make_passkey(seed: u64, rp_id: &str, id: &[u8], user_handle: Option<&[u8]
         },
     }
 }
+
+/// Seeds (for `make_passkey`) whose private scalar starts with a zero byte, found once by search.
+pub fn short_scalar_seeds() -> &'static [u64; 4] {
+    static SEEDS: std::sync::OnceLock<[u64; 4]> = std::sync::OnceLock::new();
+    SEEDS.get_or_init(|| {
+        let mut out = [0u64; 4];
+        let mut n = 0;
+        let mut seed = 9_000_000u64;
+        while n < 4 {
+            let pk = make_passkey(seed, "x", b"x", None, None, None);
+            if snap(&pk).d.is_some_and(|d| d.first() == Some(&0)) {
+                out[n] = seed;
+                n += 1;
+            }
+            seed += 1;
+        }
+        out
+    })
+}
+
+/// Rewrite the private scalar of the key as a minimal-length integer (leading zero octets dropped), the way some
+/// encoders write it. Returns the new length.
+pub fn trim_scalar(pk: &mut Passkey) -> usize {
+    let mut len = 0;
+    for (l, v) in pk.key.params.iter_mut() {
+        if *l == coset::Label::Int(-4) {
+            if let ciborium::value::Value::Bytes(b) = v {
+                while b.len() > 1 && b[0] == 0 {
+                    b.remove(0);
+                }
+                len = b.len();
+            }
+        }
+    }
+    len
+}
